@@ -18,6 +18,7 @@ fn run<P: Prop>(p: &P, data: &[u8]) {
         u32::from_le_bytes(b)
     }).collect();
     let mut g = G::new(&choices);
+    g.fuzzing = true;
     let case = match engine::catch(|| p.gen(&mut g, Tier::Thorough)) {
         Ok(c) => c,
         Err(_) => return, // generator bug: not the library's problem
